@@ -6,8 +6,8 @@ from . import campaign, engine, fmt, proof
 
 LEVEL = 'proof'
 PID = 'C01'
-WEIGHTS = {'rect': 0.2, 'oct': 0.3, 'lat': 0.12, 'gp': 0.1, 'self': 0.05, 'degen': 0.04, 'ulp': 0.03, 'boxes': 0.08, 'straddle': 0.08,
-           'fan': 0.04, 'sliver': 0.04, 'near64': 0.04, 'abut': 0.06, 'punch': 0.05, 'tjo': 0.06, 'tjunc': 0.03, 'vtj': 0.05}
+WEIGHTS = {'rect': 0.2, 'oct': 0.3, 'lat': 0.12, 'gp': 0.1, 'self': 0.05, 'degen': 0.04, 'ulp': 0.03, 'boxes': 0.08, 'straddle': 0.15,
+           'fan': 0.04, 'sliver': 0.04, 'near64': 0.04, 'abut': 0.06, 'punch': 0.05, 'tjo': 0.06, 'tjunc': 0.03, 'vtj': 0.05, 'frameslab': 0.05}
 
 
 def proof_part(rep, pid, tier):
